@@ -194,6 +194,11 @@ def gen_base(rng, sid, family="base", n=None, q=None, refresh="auto", pop=None, 
 
 
 def family(name, rng, sid):
+    if name.endswith("@free"):
+        sc = family(name[:-5], rng, sid)
+        sc["family"] = name
+        sc["sched"]["mode"] = "free"
+        return sc
     if name == "base":
         return gen_base(rng, sid, "base")
     if name == "nq":
